@@ -3,11 +3,13 @@
   `unpackE2EEPayload`, `isPPTSchemeValid`, the PPT branches of `runHandleEvent` and
   `runHandleInvocation`, and `prepareCallResultMessage` (client/client.go), decision by decision.
 
-  Where the Go code does a bare `x.(T)` or indexes `args[0]` on router-supplied data the model
-  returns `Outcome.panic site`; `checked = true` is the same code with every such site turned
-  into an error return (the shape of the proposed fix).  `checked` is instantiated from the
-  regenerated site table (`pptChecked`): it is `false` as long as the table lists a bare site
-  in one of the two unpack functions.
+  The functions are modelled as they are in the source now (fix 652e15e: length check first,
+  comma-ok assertions, nil check).  Each place where a bare `x.(T)` or an unguarded `args[0]`
+  WOULD panic consults the regenerated site table (`PptFacts`): if the table lists the site as
+  bare the model returns `Outcome.panic site`, otherwise the error the checked code returns.  On
+  today's tree no site is bare, so the functions are total (`Nexus.C17.unpack_total`); if a bare
+  assertion comes back the table changes, the theorem's side condition fails and the model
+  predicts the crash the family then finds.
 
   The third-party decoders are a parameter (`Deser`): what `DeserializeDataItem` made of the
   byte string — an error, a nil payload pointer (the encodings of `null`), or a payload.
@@ -38,10 +40,22 @@ inductive PptErr where
 
 abbrev Unpacked := Except PptErr (List Val × Dict)
 
-/-- `true` iff the regenerated site table has no bare assertion / unchecked index left in the
-    two unpack functions. -/
-def pptChecked : Bool :=
-  !(Client.sites.any fun s => s.fn == "unpackPPTPayload" || s.fn == "unpackE2EEPayload")
+/-- What the model takes from the regenerated site table: is (function, kind, expression) listed
+    as a BARE site (a type assertion without comma-ok, an index not preceded by a length check)?
+    and is the decoded payload pointer checked for nil?  Where the table says "bare" the model
+    panics, otherwise it returns the error the checked code returns. -/
+structure PptFacts where
+  bare : String → String → String → Bool
+  nilChecked : Bool
+
+def bareIn (t : List Client.Site) (fn kind expr : String) : Bool :=
+  t.any fun s => s.fn == fn && s.kind == kind && s.expr == expr
+
+/-- The facts of the source as it is now. -/
+def PptFacts.gen : PptFacts := { bare := bareIn Client.sites, nilChecked := Client.pptNilChecked }
+
+/-- The facts of the code before fix 652e15e (every site bare, no nil check): regression witness. -/
+def PptFacts.allBare : PptFacts := { bare := fun _ _ _ => true, nilChecked := false }
 
 /-- The text a model panic carries: function, kind and expression exactly as the regenerated
     site table (`Nexus.Gen.Client.sites`) spells them. -/
@@ -49,58 +63,75 @@ def siteText (fn kind expr : String) : String := fn ++ ": " ++ kind ++ " " ++ ex
 
 def nilDeref : String := "payloadTyped.Arguments (nil pointer)"
 
-/-- A bare site: panics today, returns `e` once checked. -/
-def bare (checked : Bool) (fn kind expr : String) (e : PptErr) : Outcome Unpacked :=
-  if checked then .ok (.error e) else .panic (siteText fn kind expr)
+/-- A site: panics if the table lists it as bare, returns `e` otherwise. -/
+def atSite (F : PptFacts) (fn kind expr : String) (e : PptErr) : Outcome Unpacked :=
+  if F.bare fn kind expr then .panic (siteText fn kind expr) else .ok (.error e)
+
+/-- `if payloadTyped == nil { return ErrSerialization }` (if present) before the dereference. -/
+def nilPayload (F : PptFacts) : Outcome Unpacked :=
+  if F.nilChecked then .ok (.error .serialization) else .panic (siteText "unpackPPTPayload" "deref" nilDeref)
 
 def isPPTSchemeValid (s : String) : Bool :=
   s == Client.WampPPTScheme || s == Client.MqttPPTScheme || s.startsWith Client.customSchemePrefix
 
-/-- `payloadTyped = args[0].(*wamp.PassthruPayload)` then `payloadTyped.Arguments`. -/
-def nativePayload (checked : Bool) (args : List Val) : Outcome Unpacked :=
+/-- `payloadTyped, _ = args[0].(*wamp.PassthruPayload)`, the nil check, `payloadTyped.Arguments`. -/
+def nativePayload (F : PptFacts) (args : List Val) : Outcome Unpacked :=
   match args with
-  | [] => bare checked "unpackPPTPayload" "index" "args[0]" .serialization
+  | [] => atSite F "unpackPPTPayload" "index" "args[0]" .serialization
   | .payload false a k :: _ => .ok (.ok (a, k))
-  | .payload true _ _ :: _ => bare checked "unpackPPTPayload" "deref" nilDeref .serialization
-  | _ :: _ => bare checked "unpackPPTPayload" "assert" "args[0].(*wamp.PassthruPayload)" .serialization
+  | .payload true _ _ :: _ => nilPayload F
+  | _ :: _ =>
+    if F.bare "unpackPPTPayload" "assert" "args[0].(*wamp.PassthruPayload)" then
+      .panic (siteText "unpackPPTPayload" "assert" "args[0].(*wamp.PassthruPayload)")
+    else nilPayload F       -- comma-ok leaves the pointer nil
 
-def unpackPPTPayload (checked : Bool) (deser : Deser) (details : Dict) (args : List Val) : Outcome Unpacked :=
-  match details.get? N.OptPPTSerializer with
-  | none => nativePayload checked args
-  | some (.str s) =>
-    if s == "native" then nativePayload checked args
-    else if Client.PPTSerializers.contains s then
+def unpackPPTPayload (F : PptFacts) (deser : Deser) (details : Dict) (args : List Val) : Outcome Unpacked :=
+  -- the leading `if len(args) == 0 { return ErrSerialization }` (present iff `args[0]` is not bare)
+  if args.isEmpty && !F.bare "unpackPPTPayload" "index" "args[0]" then .ok (.error .serialization) else
+  let withName (s : String) : Outcome Unpacked :=
+    if Client.PPTSerializers.contains s then
       match args with
-      | [] => bare checked "unpackPPTPayload" "index" "args[0]" .serialization
+      | [] => atSite F "unpackPPTPayload" "index" "args[0]" .serialization
       | .bin b :: _ =>
         match deser s b with
         | .err => .ok (.error .serialization)
-        | .nil => bare checked "unpackPPTPayload" "deref" nilDeref .serialization
+        | .nil => nilPayload F
         | .val a k => .ok (.ok (a, k))
-      | _ :: _ => bare checked "unpackPPTPayload" "assert" "args[0].([]byte)" .serialization
+      | _ :: _ => atSite F "unpackPPTPayload" "assert" "args[0].([]byte)" .serialization
     else .ok (.error .serializerInvalid)
-  | some _ => bare checked "unpackPPTPayload" "assert" "pptSerializerStr.(string)" .serializerInvalid
-
-def unpackE2EEPayload (checked : Bool) (deser : Deser) (details : Dict) (args : List Val) : Outcome Unpacked :=
   match details.get? N.OptPPTSerializer with
-  | some (.str s) =>
+  | none => nativePayload F args
+  | some (.str s) => if s == "native" then nativePayload F args else withName s
+  | some _ =>
+    if F.bare "unpackPPTPayload" "assert" "pptSerializerStr.(string)" then
+      .panic (siteText "unpackPPTPayload" "assert" "pptSerializerStr.(string)")
+    else withName ""        -- comma-ok: the name is ""
+
+def unpackE2EEPayload (F : PptFacts) (deser : Deser) (details : Dict) (args : List Val) : Outcome Unpacked :=
+  if args.isEmpty && !F.bare "unpackE2EEPayload" "index" "args[0]" then .ok (.error .serialization) else
+  let withName (s : String) : Outcome Unpacked :=
     if Client.E2eeSerializers.contains s then
       match args with
-      | [] => bare checked "unpackE2EEPayload" "index" "args[0]" .serialization
+      | [] => atSite F "unpackE2EEPayload" "index" "args[0]" .serialization
       | .bin b :: _ =>
         match deser s b with
         | .err => .ok (.error .serialization)
         | .nil => .ok (.ok ([], []))       -- decodes into a struct value: stays zero
         | .val a k => .ok (.ok (a, k))
-      | _ :: _ => bare checked "unpackE2EEPayload" "assert" "args[0].([]byte)" .serialization
+      | _ :: _ => atSite F "unpackE2EEPayload" "assert" "args[0].([]byte)" .serialization
     else .ok (.error .serializerInvalid)
-  | _ => bare checked "unpackE2EEPayload" "assert" "details[wamp.OptPPTSerializer].(string)" .serializerInvalid
+  match details.get? N.OptPPTSerializer with
+  | some (.str s) => withName s
+  | _ =>
+    if F.bare "unpackE2EEPayload" "assert" "details[wamp.OptPPTSerializer].(string)" then
+      .panic (siteText "unpackE2EEPayload" "assert" "details[wamp.OptPPTSerializer].(string)")
+    else withName ""
 
 /-- The `if pptScheme == WampPPTScheme { unpackE2EE… } else { unpackPPT… }` shared by the callers. -/
-def unpackByScheme (checked : Bool) (deser : Deser) (scheme : String) (details : Dict) (args : List Val) :
+def unpackByScheme (F : PptFacts) (deser : Deser) (scheme : String) (details : Dict) (args : List Val) :
     Outcome Unpacked :=
-  if scheme == Client.WampPPTScheme then unpackE2EEPayload checked deser details args
-  else unpackPPTPayload checked deser details args
+  if scheme == Client.WampPPTScheme then unpackE2EEPayload F deser details args
+  else unpackPPTPayload F deser details args
 
 /-- What `runHandleEvent` does with an EVENT whose subscription has a handler. -/
 inductive EventAct where
@@ -108,11 +139,11 @@ inductive EventAct where
   | handle (args : List Val) (kw : Dict)   -- handler called with these arguments
   deriving Repr, Inhabited
 
-def eventPpt (checked : Bool) (deser : Deser) (details : Dict) (args : List Val) (kw : Dict) : Outcome EventAct :=
+def eventPpt (F : PptFacts) (deser : Deser) (details : Dict) (args : List Val) (kw : Dict) : Outcome EventAct :=
   let scheme := details.optString N.OptPPTScheme
   if scheme == "" then .ok (.handle args kw)
   else if !isPPTSchemeValid scheme then .ok (.dropped .schemeInvalid)
-  else (unpackByScheme checked deser scheme details args).map fun
+  else (unpackByScheme F deser scheme details args).map fun
     | .error e => .dropped e
     | .ok (a, k) => .handle a k
 
@@ -123,11 +154,11 @@ inductive InvAct where
   | proceed (args : List Val) (kw : Dict)
   deriving Repr, Inhabited
 
-def invocationPpt (checked : Bool) (deser : Deser) (details : Dict) (args : List Val) (kw : Dict) : Outcome InvAct :=
+def invocationPpt (F : PptFacts) (deser : Deser) (details : Dict) (args : List Val) (kw : Dict) : Outcome InvAct :=
   let scheme := details.optString N.OptPPTScheme
   if scheme == "" then .ok (.proceed args kw)
   else if !isPPTSchemeValid scheme then .ok (.errorReply .schemeInvalid)
-  else (unpackByScheme checked deser scheme details args).map fun
+  else (unpackByScheme F deser scheme details args).map fun
     | .error e => .errorReply e
     | .ok (a, k) => .proceed a k
 
@@ -139,13 +170,13 @@ inductive ResAct where
   | ok (args : List Val) (kw : Dict)
   deriving Repr, Inhabited
 
-def prepareCallResult (checked : Bool) (deser : Deser) (dealerPPT : Bool)
+def prepareCallResult (F : PptFacts) (deser : Deser) (dealerPPT : Bool)
     (details : Dict) (args : List Val) (kw : Dict) : Outcome ResAct :=
   let scheme := details.optString N.OptPPTScheme
   if scheme == "" then .ok (.ok args kw)
   else if !dealerPPT then .ok .abort
   else if !isPPTSchemeValid scheme then .ok (.err .schemeInvalid)
-  else (unpackByScheme checked deser scheme details args).map fun
+  else (unpackByScheme F deser scheme details args).map fun
     | .error e => .err e
     | .ok (a, k) => .ok a k
 
